@@ -505,6 +505,17 @@ def classify_failure(o, ans):
 
 def replay(ck, path):
     rp = json.load(open(path))["replay"]
+    if "stream" in rp:
+        # a rewrite-stream replay: the model's answer to the stored request and Lean's semantic verdict on the stored real output
+        if rp.get("request"):
+            print("model:", common.run_model([rp["request"]])[0][:500])
+        sem = rp.get("semantic_request")
+        if sem and not sem.endswith("…"):
+            ans = common.run_model([sem])[0]
+            print("semantic verdict on the recorded output of the real rewrite:", ans[:500])
+            sys.exit(0 if ans == "ok" else 1)
+        print("recorded verdict:", rp.get("lean_verdict"))
+        sys.exit(1)
     ans = common.run_model([rp["request"]])[0]
     print("replayed verdict:", ans[:1000])
     sys.exit(0 if ans.endswith("verdict=pass") else 1)
